@@ -31,6 +31,9 @@ PROFILES = {
                  kinds=["ok"], slots=["A", "B", "C"], burst=(1, 3), stall="n3", p_owed=0.8),
     "fwdonly": dict(clients=2, steps=(5, 14), menu=["get", "get", "set", "mget", "del", "mset"],
                     kinds=["ok", "nil", "mix"], slots=["A", "A2", "B", "C"], burst=(1, 3), stall="n3", p_owed=0.5),
+    # clients that send bytes that are not RESP while their own and other clients' requests are in flight
+    "hostile": dict(clients=3, steps=(5, 14), menu=["get", "get", "set", "mget", "del", "del", "mset", "ping", "bad"],
+                    kinds=["ok", "ok", "nil"], slots=["A", "A2", "B", "C"], burst=(1, 4)),
     "quit": dict(clients=2, steps=(3, 9), menu=["get", "set", "mget", "ping", "quit"],
                  kinds=["ok"], slots=["A", "B"], burst=(1, 3)),
 }
@@ -107,9 +110,12 @@ def gen_scenario(rng, profile, sid):
                         continue
                     for s in set(r["slots"]):
                         queued[NODE_OF[s]] += 1
-                    if r["k"] == "quit":
+                    if r["k"] in ("quit", "bad"):
                         closed.add(c)
                         break
+                if any(r["k"] == "bad" for r in reqs) and len(closed) == len(clients):
+                    closed.discard(c)   # keep one client for the rest of the walk: drop the offending request instead
+                    reqs = [r for r in reqs if r["k"] != "bad"] or [{"k": "ping", "slots": [], "args": []}]
                 stim.append({"op": "send", "c": c, "reqs": reqs})
             elif a == "answer":
                 n = rng.choice(ready)
@@ -259,6 +265,8 @@ def concrete(tags, c, i, r):
         return _cmd("FLUSHALL")
     if k == "arity":
         return _cmd("GET")
+    if k == "bad":
+        return [b"$$$\r\n", b"*2\r\n$3\r\nGET\r\n$-5\r\n", b"*1\r\n$3\r\nGET extra\r\n"][i % 3]
     raise ValueError(k)
 
 
